@@ -234,6 +234,32 @@ def task_spec_selfcheck(nsamples):
             "status": "discharged", "sample": {"selfcheck_texts": n}}
 
 
+def task_validation(kind):
+    """documented exceptions for invalid start / end (concrete boundary inputs)"""
+    common.import_pregex()
+    import pregex.meta.essentials as me
+    import pregex.core.exceptions as ex
+    T, V = ex.InvalidArgumentTypeException, ex.InvalidArgumentValueException
+    cases = [((-1, 5), V), ((6, 5), V), ((1000, 999), V), (("0", 5), T), ((0, "5"), T), ((True, 5), T), ((0, True), T), ((False, 12), T),
+             ((0.0, 5), T), ((0, 5.0), T), ((None, 5), T), ((0, None), T), (([0], 5), T)]
+    bad = []
+    for variant, _ in VARIANTS:
+        for args, exc in cases:
+            try:
+                getattr(me, variant)(*args)
+                bad.append((variant, args, exc.__name__, "no exception"))
+            except exc:
+                pass
+            except Exception as e:
+                bad.append((variant, args, exc.__name__, repr(e)))
+    if bad:
+        v, a, en, what = bad[0]
+        return {"name": "integer argument validation", "status": "violated", "detail": repr(bad[:3]), "inputs": {"text": ""},
+                "script": "try:\n    %s(*%r)\n    REPRODUCED('no exception')\nexcept (InvalidArgumentTypeException, InvalidArgumentValueException) as e:\n"
+                          "    if type(e).__name__ != %r: REPRODUCED(repr(e))\nexcept Exception as e:\n    REPRODUCED(repr(e))\nNOT_REPRODUCED()\n" % (v, a, en)}
+    return {"name": "integer argument validation (%d cases)" % (len(cases) * len(VARIANTS)), "status": "discharged"}
+
+
 def configs(tier):
     fam = set()
     if tier == "quick":
@@ -263,7 +289,7 @@ def run(tier):
     import pregex.meta.essentials as me
     run.functions = common.src_fingerprint(common.resolve([(me.Integer, "__init__"), (me.PositiveInteger, "__init__"), (me.NegativeInteger, "__init__"), (me.UnsignedInteger, "__init__"), (None, getattr(me, "_Integer__integer", me.Integer.__mro__[1].__init__)), (me.Integer.__mro__[1], "__init__")]))
     fam, bfam = configs(tier)
-    tasks = [("task_spec_selfcheck", (300,))]
+    tasks = [("task_spec_selfcheck", (300,)), ("task_validation", ("bounds",))]
     for (s, e) in fam:
         L = len(str(e)) + 3
         tasks.append(("task_embedded", ("Integer", False, s, e, L, kf1)))
